@@ -123,9 +123,10 @@ func c01Profile(tier string) *eng.Profile {
 func init() {
 	profileBuilders = append(profileBuilders, func(tier string) { Register(c01Profile(tier)) })
 	Registry["C01"] = func(r *Run) {
-		r.Rule = "every sequence of <=depth ops over the KV alphabet (2 buckets x 3 keys x {put '',put x,put live-TTL,put expired-TTL,delete}, tick, reopen, 4 two-call transactions) in every configuration; after each history every Get/GetAll/RangeScan/PrefixScan/PrefixSearchScan of the observation grid is compared with the ordered-map+TTL model; distinct = distinct canonical states; non-trivial = model states in which some read returns data and some read fails"
+		r.Rule = "every sequence of <=depth ops over the KV alphabet (2 buckets x 3 keys x {put '',put x,put live-TTL,put expired-TTL,delete}, tick, reopen, 4 two-call transactions) in every configuration; after each history every Get/GetAll/RangeScan/PrefixScan/PrefixSearchScan of the observation grid is compared with the ordered-map+TTL model; wide tier on the exported BPTree: every insertion order of 8 (thorough 9) keys with a tombstone re-insertion, and monotone fills of 24..40 (thorough 16..64) keys followed by every sequence of <=2 insertions into every gap (inner-node splits), with Find/All/Range/PrefixScan and structural invariants after every insertion; distinct = distinct canonical states; non-trivial = model states in which some read returns data and some read fails"
 		r.Assume = []string{"key/value/bucket bytes outside the alphabet are not covered", "virtual clock: seconds advance only by tick ops"}
 		r.Required = []string{"rotated", "tick", "reopen", "delete", "ttl"}
 		r.Explore(c01Profile(r.Tier))
+		runWide(r)
 	}
 }
